@@ -131,10 +131,11 @@ void World::apply(int i, const Op& op) {
 	{ Ev e; e.k = EV_API; e.a = op.kind; h.push(e); }
 	const bool act = s.expectActivated;
 	const Shape& sh = n.shape();
+	s.stepped = false;
 	auto validState = [&](int x) { return x >= 0 && x < sh.n; };
 	switch (op.kind) {
-	case OP_UPDATE: if (act) n.update(); break;
-	case OP_REACT:  if (act) n.react(op.a); break;
+	case OP_UPDATE: if (act) { n.update(); s.stepped = true; } break;
+	case OP_REACT:  if (act) { n.react(op.a); s.stepped = true; } break;
 	case OP_QUERY:  if (act) n.query(0); break;
 	case OP_REQUEST: case OP_IMMEDIATE: {
 		if (!act || !validState(op.b)) break;
@@ -147,7 +148,7 @@ void World::apply(int i, const Op& op) {
 		const bool wp = op.withPayload && (caps & CAP_PAYLOAD);
 		Ev e; e.k = EV_ISSUE; e.state = -1; e.a = op.a; e.b = op.b; e.hasP = wp; e.p = wp ? op.payload : 0; h.push(e);
 		if (op.kind == OP_REQUEST) n.request(op.a, op.b, wp ? &op.payload : nullptr);
-		else n.immediate(op.a, op.b, wp ? &op.payload : nullptr);
+		else { n.immediate(op.a, op.b, wp ? &op.payload : nullptr); s.stepped = true; }
 		break; }
 	case OP_SUCCEED: case OP_FAIL:
 		if (!act || !(caps & CAP_PLANS) || op.a <= 0 || op.a >= sh.n) break;
@@ -172,12 +173,12 @@ void World::apply(int i, const Op& op) {
 		const bool ok = n.planRemoveAt(op.a, op.b);
 		Ev e; e.k = EV_PLAN_EDIT; e.state = -1; e.a = A_PLAN_REMOVE | (op.a << 8); e.b = op.b; e.c = ok; h.push(e);
 		break; }
-	case OP_RESET: if (act) n.reset(); break;
+	case OP_RESET: if (act) { n.reset(); s.stepped = true; } break;
 	case OP_ENTER:
-		if (!act && (n.caps() & CAP_MANUAL)) { h.inActivation = true; n.enter(); h.inActivation = false; s.expectActivated = true; }
+		if (!act && (n.caps() & CAP_MANUAL)) { h.inActivation = true; n.enter(); h.inActivation = false; s.expectActivated = true; s.stepped = true; }
 		break;
 	case OP_EXIT:
-		if (act && (n.caps() & CAP_MANUAL)) { n.exit(); s.expectActivated = false; }
+		if (act && (n.caps() & CAP_MANUAL)) { n.exit(); s.expectActivated = false; s.stepped = true; }
 		break;
 	case OP_LOGGER:
 		if (n.caps() & CAP_LOG) {
@@ -686,7 +687,7 @@ void World::execOp(const Op& op) {
 		crossCheck(op);
 		if (op.kind == OP_UPDATE) { ++tick; if (cov && collect) ++cov->ticks; }
 		// a processing step on the authority: ship what it recorded
-		if (!result.tainted && (op.kind == OP_UPDATE || op.kind == OP_REACT || op.kind == OP_IMMEDIATE || op.kind == OP_ENTER || op.kind == OP_RESET || op.kind == OP_EXIT))
+		if (!result.tainted && slots[size_t(iA)].stepped && (op.kind == OP_UPDATE || op.kind == OP_REACT || op.kind == OP_IMMEDIATE || op.kind == OP_ENTER || op.kind == OP_RESET || op.kind == OP_EXIT))
 			shipDelta(op, beforeA, 0, false);
 		return;
 	}
